@@ -253,6 +253,7 @@ def rule_split_and_placement(rep, fx):
             ok_pl = freeze(poly(s_len)) == freeze(padd_(poly(r_to), r_from))
     rep.check(ok_dst and ok_src and ok_pl, 'R05.6', 'insert_frags/placement', 'buffer[(start-1)*fs .. to] <- payload[.. to - (start-1)*fs]',
               'insert_frags does not place the fragment payload (from its offset 0) at (fragment_starting_num-1)*frag_size, the offset the writer cut it from', ins.where(cbb))
+    rule_copy_window(rep, fx, 'R05.12')
     # ---------------------------------------------------------------- R05.7 counts
     nfb = fx.find('rtps::writer::Writer::num_frags_and_frag_size')
     tnb = fx.find('messages::submessages::data_frag::DataFrag::total_number_of_fragments')
@@ -409,3 +410,74 @@ def rule_frag_amount(rep, fx, rid):
     rep.check(ok, rid, 'insert_frags/amount', 'copies min(fragments_in_submessage * frag_size, payload len) bytes',
               'insert_frags does not copy fragments_in_submessage * frag_size bytes (payload length permitting) while it marks fragments_in_submessage fragments as received (%s): a DATAFRAG '
               'with several fragments completes the sample with part of its bytes never written' % why, ins.where())
+
+
+def rule_copy_window(rep, fx, rid):
+    """How many bytes insert_frags copies. Shared by C05 (R05.12: too few bytes leave a zero-filled hole in a sample that is then delivered as complete) and
+    C06 (R06.5: too many bytes run past the assembly buffer or the payload and panic on the receive thread)."""
+    from rdv.poly import poly, freeze, minset, padd, atom
+    rep.rule(rid, 'copy window of insert_frags: the number of bytes copied, as a minimum of polynomials, is exactly min{ fragments_in_submessage * frag_size, len(payload), '
+                  'len(buffer) - (fragment_starting_num-1)*frag_size } (whatever the shape of the expression): as much as the DATAFRAG announces and carries, never past the '
+                  'end of the sample buffer; the destination range and the source slice have that same length')
+    ins = fx.find(FA + 'AssemblyBuffer::insert_frags')
+    rep.analysed(ins)
+    og = Origins(ins, summaries=False)
+    copies = [(cbb, t) for cbb, t in ins.calls() if callee_res(t).endswith('copy_from_slice')]
+    if len(copies) != 1:
+        raise CheckBroken('insert_frags: expected one copy_from_slice, found %d' % len(copies))
+    cbb, t = copies[0]
+    dst, src = og.of_operand(t['args'][0], cbb, 'term'), og.of_operand(t['args'][1], cbb, 'term')
+    ok = dst[0] == 'call' and dst[1].endswith('index_mut') and dst[2][1][0] == 'agg' and str(dst[2][1][1]).endswith('ops::Range') and \
+        src[0] == 'call' and src[1].endswith('::index') and src[2][1][0] == 'agg' and str(src[2][1][1]).endswith('ops::RangeTo')
+    why = 'the copy is not buffer[a..b] <- payload[..c]'
+    if ok:
+        r_from, r_to, s_len = dst[2][1][2][0], dst[2][1][2][1], src[2][1][2][0]
+        pf = poly(r_from)
+        L = frozenset(freeze(padd(dict(x), pf, -1)) for x in minset(r_to))
+        Ls = minset(s_len)
+        # atoms
+        fs = [a_ for m in pf for a_ in m if a_[0] == 'param']
+        n_at = None
+        for bb, si, st in ins.statements():
+            pass
+        nterm = [x for x in _subterms(r_to) if x[0] == 'field' and x[1] == 'fragments_in_submessage']
+        plen = [x for x in _subterms(r_to) if x[0] == 'call' and x[1].endswith('::len') and term_has(x, lambda z: z[0] == 'field' and z[1] == 'serialized_payload')]
+        blen = [x for x in _subterms(r_to) if x[0] == 'call' and x[1].endswith('::len') and term_has(x, lambda z: z[0] == 'field' and z[1] == 'buffer_bytes')]
+        if not (fs and nterm and plen and blen):
+            ok = False
+            why = 'the end of the destination range does not mention fragments_in_submessage, len(payload) and len(buffer) (%s)' % term_str(r_to)[:120]
+        else:
+            a_n, a_fs, a_pl, a_bl = atom(nterm[0]), fs[0], atom(plen[0]), atom(blen[0])
+            want = frozenset([freeze({tuple(sorted((a_n, a_fs), key=repr)): 1}), freeze({(a_pl,): 1}), freeze(padd({(a_bl,): 1}, pf, -1))])
+            ok = (L == want) and (Ls == want)
+            why = 'copied length = min%s, source slice length = min%s; expected min{n*fs, len(payload), len(buffer) - from}' % (_show(L), _show(Ls))
+    rep.check(ok, rid, 'insert_frags/copy-window', 'length = min{n*fs, len(payload), len(buffer) - from} on both sides of the copy',
+              'insert_frags copies a number of bytes that is not min{fragments_in_submessage*frag_size, len(payload), len(buffer) - start offset}: %s. Too few bytes leave a hole in a '
+              'sample that is still marked complete; too many run past the buffer (or the payload) and panic on the receive thread' % why, ins.where(cbb))
+
+
+def _subterms(t):
+    out = []
+
+    def walk(x):
+        if isinstance(x, tuple):
+            if x and isinstance(x[0], str):
+                out.append(x)
+            for y in x:
+                walk(y)
+    walk(t)
+    return out
+
+
+def _show(S):
+    def one(p):
+        return ' + '.join('%s%s' % ('' if c == 1 else '%d*' % c, '*'.join(_an(a) for a in m) or '1') for m, c in p) or '0'
+    return '{' + ', '.join(sorted(one(p) for p in S)) + '}'
+
+
+def _an(a):
+    s_ = str(a)
+    for k in ('fragments_in_submessage', 'serialized_payload', 'buffer_bytes', 'fragment_starting_num'):
+        if k in s_:
+            return ('len(%s)' % k) if '::len' in s_ else k
+    return 'frag_size' if a[0] == 'param' else s_[:30]
